@@ -76,6 +76,9 @@ type Ctx struct {
 	pureMemo      map[*ssa.Function]int
 	initOnly      map[*ssa.Global]bool
 	initOnlyDone  map[*ssa.Global]bool
+	aliasOf       map[*ssa.Global]*ssa.Global
+	callersOf     map[*ssa.Function][]ssa.CallInstruction
+	usedAsValue   map[*ssa.Function]bool
 }
 
 func (c *Ctx) note(format string, a ...interface{}) {
